@@ -201,6 +201,7 @@ func (ck *Checker) shrink(orig *Scenario, v Violation, budget int) (*Scenario, i
 			s.Choices = []int32{}
 		}
 		s.MapPay = outs[si].Res.MapPay
+		s.Aux = outs[si].Res.Aux
 		s.Stalls = nil
 		if !try(ex) {
 			continue
